@@ -88,12 +88,16 @@ func runCase(c caseLine) (obs string) {
 		return execDec(toks)
 	case "rt":
 		return execRt(toks)
+	case "tm":
+		return execTm(toks)
 	case "st":
 		return execSt(toks)
 	case "fw":
 		return execFw(toks)
 	case "pl":
 		return execPl(toks)
+	case "ls":
+		return execLs(toks)
 	}
 	return "bad-case"
 }
@@ -127,7 +131,7 @@ func readCorpus(path string) []caseLine {
 }
 
 func main() {
-	mode := flag.String("mode", "dec", "dec | rt | st | fw | pl")
+	mode := flag.String("mode", "dec", "dec | rt | st | fw | pl | ls")
 	tier := flag.String("tier", "quick", "quick | thorough")
 	seed := flag.Uint64("seed", 1, "seed")
 	stats := flag.String("stats", "", "stats file")
@@ -138,7 +142,7 @@ func main() {
 	var cases []caseLine
 	for _, f := range flag.Args() {
 		for _, c := range readCorpus(f) {
-			if strings.HasPrefix(c.text, *mode+" ") {
+			if strings.HasPrefix(c.text, *mode+" ") || (*mode == "rt" && strings.HasPrefix(c.text, "tm ")) {
 				cases = append(cases, c)
 			}
 		}
@@ -151,17 +155,20 @@ func main() {
 			cases = append(cases, genDec(r, thorough)...)
 		case "rt":
 			cases = append(cases, genRt(r, thorough)...)
+			cases = append(cases, genTm(r, thorough)...)
 		case "st":
 			cases = append(cases, genSt(r, thorough)...)
 		case "fw":
 			cases = append(cases, genFw(r, thorough)...)
 		case "pl":
 			cases = append(cases, genPl(r, thorough)...)
+		case "ls":
+			cases = append(cases, genLs(r, thorough)...)
 		}
 	}
 	// dec/rt measure allocation with process-wide counters: they run on one goroutine.
 	par := 1
-	if *mode == "st" || *mode == "fw" || *mode == "pl" {
+	if *mode == "st" || *mode == "fw" || *mode == "pl" || *mode == "ls" {
 		par = *workers
 	}
 	obs := make([]string, len(cases))
